@@ -29,9 +29,9 @@ use vcommon::util;
 const U: usize = 4096; // bytes per model size unit
 const TU: u64 = 1000; // seconds per model time unit
 
-struct MockTime {
-    base: Instant,
-    units: AtomicU64,
+pub(crate) struct MockTime {
+    pub(crate) base: Instant,
+    pub(crate) units: AtomicU64,
 }
 impl TimeProvider for MockTime {
     fn now(&self) -> Instant {
